@@ -255,6 +255,45 @@ def passthrough_class(run, rng, truth, k):
                 run.violation('passthrough-column-depends-on-request', dict(column=c, **desc))
 
 
+def lc_session(run, rng, k):
+    """light-cone layout: every column valid there, alone / with others, against fields='all'."""
+    from abacusnbody.data import compaso_halo_catalog as chc
+
+    L = gen_catalog.make_lc_tree(rng, H=int(rng.integers(5, 40)), smallratio=True)
+    try:
+        names = [n for n in chc.user_dt.names if 'L2' in n] + list(chc.halo_lc_dt.names)
+        names = list(dict.fromkeys(names))
+        ref, err = catoracle.load(L['path'], fields='all')
+        run.count('reference_loads')
+        if err is not None:
+            run.violation('reference-load-fails-' + type(err).__name__, dict(layout='light_cone', error=str(err)[:200]))
+            return
+        reqs = [[c] for c in names]
+        for _ in range(30 if run.quick else 300):
+            c = names[int(rng.integers(0, len(names)))]
+            others = [names[int(j)] for j in rng.choice(len(names), int(rng.integers(1, 4)), replace=False) if names[int(j)] != c]
+            reqs.append([c] + others if rng.random() < 0.5 else others + [c])
+        for req in reqs:
+            for sub in ((False,) if len(req) > 1 or run.quick else (False, True)):
+                desc = dict(tree=f'lc{k}', layout='light_cone', request=req, subsamples=repr(sub))
+                run.progress(desc)
+                run.ev()
+                run.count('loads')
+                cat, err = catoracle.load(L['path'], fields=list(req), subsamples=sub)
+                if err is not None:
+                    run.violation('lc-load-fails-' + type(err).__name__, dict(error=f'{type(err).__name__}: {err}'[:300], **desc))
+                    continue
+                run.nt(('lc', k, tuple(req), repr(sub)))
+                for c in req:
+                    if c not in cat.halos.colnames:
+                        run.violation('requested-column-missing', dict(column=c, got=cat.halos.colnames[:12], **desc))
+                    elif c in ref.halos.colnames and not catoracle.eq_nan(np.asarray(cat.halos[c]), np.asarray(ref.halos[c])):
+                        run.violation('column-depends-on-request', dict(column=c, **desc))
+                    run.count('columns_compared')
+    finally:
+        shutil.rmtree(L['root'], ignore_errors=True)
+
+
 def check(run):
     catoracle.fast_io()
     rng = run.rng(0)
@@ -263,6 +302,8 @@ def check(run):
         tree_session(run, rng, k, run.quick)
         if run.too_many():
             break
+    for k in range(1 if run.quick else 6):
+        lc_session(run, rng, k)
     run.sample(dict(request=['sigmavMid_com', 'id'], cleaned=False, kind='ordered-pair', note='derived column whose dependencies were not requested'))
     run.sample(dict(request=['N'], cleaned=False, subsamples="{'A': True, 'pid': True}", kind='no-index-cols+subsamples'))
 
